@@ -58,14 +58,26 @@ def showReplies (l : List Reply) : String := if l.isEmpty then "-" else ",".inte
 
 def parseASN (s : String) : Option Nat := if s == "-" then none else some (nat! s)
 
+/-- The switches of the profile and device records: one letter per field that differs from the usual
+value (`F`/`f` profile/device filtering off, `Q` query log off, `I` IP log off, `X` deleted, `A`
+automatic devices, `P` prefetch/canary/relay blocking, `M` another blocking mode, `S` filters on, `G` no rate limiter of its own,
+`l` linked address, `d` dedicated addresses, `a` device authentication). -/
+def parseAttrs (f : String) : DevAttrs :=
+  let has (c : Char) : Bool := f.toList.contains c
+  { profFiltering := !has 'F', devFiltering := !has 'f', queryLog := !has 'Q', ipLog := !has 'I',
+    deleted := has 'X', autoDevices := has 'A', blockSpecial := has 'P', customBlockingMode := has 'M',
+    filtersOn := has 'S', globalRatelimiter := has 'G', linkedIP := has 'l', dedicatedIPs := has 'd', auth := has 'a' }
+
 def parseDev (s : S) (d : String) : DevRes :=
   if d == "nil" then .none
-  else if d == "empty" then .ok none
+  else if d == "empty" then .ok none {}
   else if d == "auth" then .authFail
   else if d == "unk" then .unknownDedicated
   else if d == "err" then .error
   else match d.splitOn ":" with
-    | ["ok", k] => .ok (some (s.prof (nat! k)).acc)
+    | ["ok", k] => .ok (some (s.prof (nat! k)).acc) {}
+    | ["ok", k, f] => .ok (some (s.prof (nat! k)).acc) (parseAttrs f)
+    | ["empty", f] => .ok none (parseAttrs f)
     | _ => .none
 
 def showEff : List Effect → String
